@@ -27,7 +27,7 @@ REXTRA = ['', None, 'yes', 'no', 'Yes', ' y', 'nope', 'yY', '\ty', 'Ýes', 'y\x0
 
 
 def dimensions(tier):
-    return {'contents': sum(1 for _ in contents(tier)), 'days': 3, 'flags': 4, 'replies': len(replies()), 'interactive_modes': 2}
+    return {'contents': sum(1 for _ in contents(tier)), 'days': 3, 'flags': 4, 'replies': len(replies()), 'interactive_modes': 3}
 
 
 def contents(tier):
@@ -49,7 +49,7 @@ def cases(tier):
         for d in DAYS:
             for ms in contents(tier):
                 out.append({'part': 'dry', 'ms': ms, 'days': d, 'flags': fl})
-    for mode in ('-i', 'tty'):
+    for mode in ('-i', 'tty', '-i+trash-dir'):
         for d in (None, 1):
             for rp in replies():
                 out.append({'part': 'ask', 'reply': rp, 'mode': mode, 'days': d})
@@ -64,6 +64,7 @@ def fill(W, td, ms, rel):
         payload = {'nopayload': None, 'tree': 'tree', 'link': 'ldir'}.get(k, 'file')
         scen.add_trashed(W, td, nm, pv, date, payload=payload, tag=nm)
     W.file(td + '/files/orphan', 'orphan\n')
+    W.file(td + '/directorysizes', '4096 1600000000 e0\n')          # size cache written by other implementations (spec 1.0)
 
 
 def build(c):
@@ -128,9 +129,9 @@ def run_dry(c):
 
 
 def run_ask(c):
-    W, argv, tds = build({'days': c['days']})
+    W, argv, tds = build({'days': c['days'], 'flags': 'trash-dir' if c['mode'] == '-i+trash-dir' else '-'})
     plan = {}
-    if c['mode'] == '-i':
+    if c['mode'] in ('-i', '-i+trash-dir'):
         argv.append('-i')
     else:
         plan['isatty'] = True
